@@ -221,7 +221,10 @@ def vcs(env, want):
             basis = _param_basis_eq(me, ot) if level == 'param' else _sig_basis_eq(me, ot)
             if on(C['basis']) and truth:
                 out.append(VC(C['basis'].full + tag, [], basis, C['basis'].props))
-            if other == 'upgraded' and on(C['iff']) and (v is True or v is False):
+            # an annotation whose evaluation fails has no value to compare: the property then only asks for a bool
+            # (and, through eq_implies_basis, that True is never answered for different data)
+            eval_failed = any(e[0] == 'external-raise' and e[1] == 'eval' for e in r.ctx.events)
+            if other == 'upgraded' and on(C['iff']) and (v is True or (v is False and not eval_failed)):
                 if level == 'param':
                     ua = _ua_eq(I, me._d['upgraded_annotation'], ot._d['upgraded_annotation'])
                 else:
@@ -310,6 +313,8 @@ def replay(env, vc, model):
             bad.append(('class:inherits_str_bind', 'str differs'))
         return dict(status='reproduced' if bad else 'not-reproduced', op='dropin:class', violated=[list(b) for b in bad])
     conc = Concretizer(model)
+    # a path on which the external ``eval`` raised: the native postponed functions get annotations that cannot be evaluated
+    conc.unevaluable = any(e[0] == 'external-raise' and e[1] == 'eval' for e in env['r'].ctx.events)
     info = env['info']
     sig = conc.build_sig(info)
     level = 'param' if unit.startswith('param') else 'sig'
